@@ -118,8 +118,9 @@ func thesaurusQueries(c *ctx, seg segment.Segment, spec sx.V) (bad string) {
 		var preL segment.SynonymsList
 		var preI segment.SynonymsIterator
 		var trail []string
+		var keybuf []byte
 		for q := 0; q < 8; q++ {
-			tgt, term := th, "\x01no-such-term"
+			tgt, term := th, []string{"\x01no-such-term", "\x01bc", "\x01bcd", "\x01bcde", "\x01"}[c.R.Intn(5)]
 			var want []zh.SynPair
 			switch k := c.R.Intn(4); {
 			case k == 0:
@@ -142,7 +143,12 @@ func thesaurusQueries(c *ctx, seg segment.Segment, spec sx.V) (bad string) {
 				}
 				trail = append(trail, fmt.Sprintf("%q", term))
 			}
-			l, err := tgt.SynonymsList([]byte(term), nil, preL)
+			// the caller keeps one key buffer and overwrites it in place for every lookup
+			if len(keybuf) != len(term) {
+				keybuf = make([]byte, len(term))
+			}
+			copy(keybuf, term)
+			l, err := tgt.SynonymsList(keybuf, nil, preL)
 			if err != nil {
 				return fmt.Sprintf("thesaurus %q, lookups %v each recycling the previous list: error %v", name, trail, err)
 			}
